@@ -137,6 +137,7 @@ pub fn c11_case(fam: &str, idx: usize, seed: u64) -> Option<Case> {
         dropper: None,
         seq_start: None,
         preset_ids: vec![],
+        forget_puts: vec![],
             };
             if burst {
                 sc.paced = false;
@@ -166,6 +167,15 @@ pub fn c11_case(fam: &str, idx: usize, seed: u64) -> Option<Case> {
                     }
                 }
             }
+            // some Puts are fire-and-forget (the user does not wait for the id); their transfers are judged by what
+            // arrives, and the ids the daemons announce (Transaction indications) must still be pairwise distinct
+            if rng.chance(1, 3) {
+                for tr in 0..sc.transfers.len() {
+                    if rng.chance(1, 4) && tr + 1 < sc.transfers.len() {
+                        sc.forget_puts.push(tr);
+                    }
+                }
+            }
             // strays, replays and hostile bytes
             let n_stray = rng.usize(8);
             let mut kinds = vec![];
@@ -174,6 +184,14 @@ pub fn c11_case(fam: &str, idx: usize, seed: u64) -> Option<Case> {
                 let (bytes, kind) = stray(&mut rng, n_ent, to, idx % 400 + s * 401);
                 kinds.push(kind);
                 sc.scripts.push(Script { trig: Trigger::At(rng.below(400)), delay_ms: 0, act: Act::Inject(to, bytes) });
+            }
+            // responses (Finished, ACKs) delivered once more to their sender shortly after the exchange: the
+            // send transaction has ended but the daemon may not have cleaned up after it yet
+            for _ in 0..rng.usize(4) {
+                let e = rng.usize(n_ent);
+                let kind = *rng.pick(&[Kind::Finished, Kind::Finished, Kind::AckEof, Kind::Nak]);
+                sc.scripts.push(Script { trig: Trigger::At(150 + rng.below(1800)), delay_ms: 0, act: Act::RedeliverKind(e, kind, rng.usize(6)) });
+                kinds.push(format!("late-{}", kind_short(kind)));
             }
             for _ in 0..rng.usize(3) {
                 // replay of a recorded PDU, possibly long after its transaction has ended
@@ -203,6 +221,7 @@ pub fn judge_c11(info: &Info, log: &RunLog, rep: &mut Report) {
     let mut seen: HashSet<TransactionID> = HashSet::new();
     for (tr, _t) in info.transfers.iter().enumerate() {
         match d.id(tr) {
+            None if info.forgotten.contains(&tr) => rep.count("c11_fire_and_forget_puts"),
             None => rep.violate("put-not-answered", "".into(), &info.case, w(&format!("Put of transfer {} returned no transaction id", tr))),
             Some(id) => {
                 rep.count("c11_put_ids_checked");
@@ -211,6 +230,21 @@ pub fn judge_c11(info: &Info, log: &RunLog, rep: &mut Report) {
                 }
             }
         }
+    }
+    // 1b. the ids the daemons announce to their users (one Transaction indication per Put, also for the
+    //     fire-and-forget ones) are pairwise distinct, and there is one per Put
+    {
+        let mut announced: HashSet<TransactionID> = HashSet::new();
+        let mut n = 0usize;
+        for r in &log.recs {
+            if let Ev::Ind { ind: cfdp_core::daemon::Indication::Transaction(id), .. } = &r.ev {
+                n += 1;
+                if !announced.insert(*id) {
+                    rep.violate("duplicate-transaction-id", "announced".into(), &info.case, w(&format!("transaction id {} was announced for two different Put requests", id)));
+                }
+            }
+        }
+        rep.add("c11_transaction_indications_checked", n as u64);
     }
     // 2./3. each transfer: its own content at its own destination, its own outcome
     let b = bound_us(info, 0);
@@ -259,6 +293,30 @@ pub fn judge_c11(info: &Info, log: &RunLog, rep: &mut Report) {
     // 4. the daemons are still there and serve
     if log.daemons_alive.iter().any(|a| !*a) {
         rep.violate("daemon-stopped", format!("alive={:?}", log.daemons_alive), &info.case, w("a daemon task ended"));
+    }
+    // 4c. once the sending entity has told its user that a transfer succeeded, that id is silent there: no further
+    //     fault, abandon or second outcome (a late response PDU must not start anything at the sender)
+    for (tr, t) in info.transfers.iter().enumerate() {
+        let id = match d.id(tr) {
+            Some(i) => i,
+            None => continue,
+        };
+        if let Some((li, _)) = d.first_success(t.src, id) {
+            rep.count("c11_checked:sender-silent-after-success");
+            let later = log.recs.iter().enumerate().skip(li + 1).find(|(_, r)| matches!(&r.ev, Ev::Ind { ent, ind } if *ent == t.src && ind_id(ind) == id && match ind {
+                cfdp_core::daemon::Indication::Fault(_) | cfdp_core::daemon::Indication::Abandon(_) => true,
+                // (a duplicated Finished PDU that reaches the still-open transaction repeats the same success)
+                cfdp_core::daemon::Indication::Finished(f) => !crate::sim::is_success(f),
+                _ => false,
+            }));
+            if let Some((_, r)) = later {
+                let what = match &r.ev {
+                    Ev::Ind { ind, .. } => format!("{:?}", crate::sim::ind_kind(ind)),
+                    _ => String::new(),
+                };
+                rep.violate("outcome-after-success-at-sender", format!("kind={}", what), &info.case, w(&format!("the sending entity reported {} for {} after it had reported that transfer successful", what, id)));
+            }
+        }
     }
     if let Some(p) = &log.probe {
         rep.count("c11_probes");
@@ -359,10 +417,10 @@ pub fn run_c11(tier: &str, seed: u64, replay: Option<&str>) -> (Meta, Report) {
     let meta = Meta {
         property: "C11",
         level: "exploration",
-        rule: "seeded scenarios: 2-3 real daemons, 4-40 transfers with distinct tagged files started within 60 ms in random directions, 1/3 unacknowledged, random knobs, limit 4 with at most 3 drops per pair of entities (C02 hypothesis) plus duplications and delays, paced or burst delivery (every 5th scenario: up to three files of 130-430 segments delivered in one burst, filling the daemon's per-transaction queues), 0-7 injected stray PDUs (responses to non-existent senders, PDUs naming entity 99, data/EOF/metadata of transactions nobody started, random bytes, truncated PDUs) and 0-2 replays of recorded PDUs up to 8 s later; every run ends with a probe transfer and a Report. distinct_nontrivial = distinct (config, event-order) signatures.".into(),
+        rule: "seeded scenarios: 2-3 real daemons, 4-40 transfers with distinct tagged files started within 60 ms in random directions, 1/3 unacknowledged, random knobs, limit 4 with at most 3 drops per pair of entities (C02 hypothesis) plus duplications and delays, paced or burst delivery (every 5th scenario: up to three files of 130-430 segments delivered in one burst, filling the daemon's per-transaction queues), 0-7 injected stray PDUs (responses to non-existent senders, PDUs naming entity 99, data/EOF/metadata of transactions nobody started, random bytes, truncated PDUs) and 0-2 replays of recorded PDUs up to 8 s later, 0-3 response PDUs (Finished, ACK(EOF), NAK) delivered once more to their sender 0.15-2 s into the run (its transaction has ended, the daemon may not have cleaned up yet), fire-and-forget Puts in a third of the scenarios; every run ends with a probe transfer and a Report. distinct_nontrivial = distinct (config, event-order) signatures.".into(),
         exhaustive: false,
         assumptions: vec!["unacknowledged transfers carry no delivery guarantee under loss: for them only 'a reported delivery holds the transfer's own file' and termination are judged".into(), "sequence numbers are 2, 4 or 8 bytes wide and start at 1 or just below the top of their width (fewer Puts than the sequence space)".into()],
-        require: vec![("c11_ack_transfers_judged".into(), 2000), ("c11_stray_tasks_judged".into(), 50), ("c11_probes".into(), 100), ("c11_runs:3-daemons".into(), 50)],
+        require: vec![("c11_ack_transfers_judged".into(), 2000), ("c11_stray_tasks_judged".into(), 50), ("c11_probes".into(), 100), ("c11_runs:3-daemons".into(), 50), ("c11_fire_and_forget_puts".into(), 50), ("c11_checked:sender-silent-after-success".into(), 1000)],
         extra: vec![],
     };
     if let Some(r) = replay {
